@@ -294,13 +294,42 @@ pub fn call_matches_at(b: &[u8], p: usize, call: &Call) -> bool {
 /// Check that the handler log is explained by valid messages at increasing offsets of `stream`.
 /// Returns Err(index of the first unexplained call).
 pub fn explain_calls(stream: &[u8], log: &[Call]) -> Result<Vec<usize>, usize> {
+    explain_calls_fds(stream, log, &[])
+}
+
+/// Descriptors a message whose header occupies [p, p+12) receives: those attached to a byte of the header (a read of
+/// the header that starts in a descriptor-less segment continues into the next one and gets its descriptors).
+/// None = ambiguous (two groups inside one header, or more than the 32 the receiver can take): not judged.
+pub fn carried_fds(fd_groups: &[(usize, usize)], p: usize) -> Option<usize> {
+    let inside: Vec<usize> = fd_groups.iter().filter(|(q, n)| *q >= p && *q < p + 12 && *n > 0).map(|(_, n)| *n).collect();
+    match inside.len() {
+        0 => Some(0),
+        1 if inside[0] <= 32 => Some(inside[0]),
+        _ => None,
+    }
+}
+
+/// number of descriptors the request behind a handler invocation prescribes
+pub fn prescribed_fds(call: &Call) -> usize {
+    match call {
+        Call::SetMemTable(r, _) => r.len(),
+        Call::SetVringKick(_, f) | Call::SetVringCall(_, f) | Call::SetVringErr(_, f) => f.is_some() as usize,
+        Call::SetBackendReqFd(_) | Call::SetGpuSocket(_) | Call::SetInflightFd(..) | Call::AddMemRegion(..) | Call::SetDeviceStateFd(..) | Call::SetLogBase(..) => 1,
+        _ => 0,
+    }
+}
+
+/// Every handler invocation must be explained, at increasing offsets, by a protocol-valid message literally present in
+/// the stream that carries exactly the descriptors its request prescribes (`fd_groups`: (absolute offset, count) of
+/// every descriptor group sent; empty = descriptor counts are not judged).
+pub fn explain_calls_fds(stream: &[u8], log: &[Call], fd_groups: &[(usize, usize)]) -> Result<Vec<usize>, usize> {
     let mut from = 0usize;
     let mut pos = Vec::new();
     for (i, c) in log.iter().enumerate() {
         let mut found = None;
         let mut p = from;
         while p + 12 <= stream.len() {
-            if call_matches_at(stream, p, c) {
+            if call_matches_at(stream, p, c) && (fd_groups.is_empty() || carried_fds(fd_groups, p).map(|n| n == prescribed_fds(c)).unwrap_or(true)) {
                 found = Some(p);
                 break;
             }
@@ -316,8 +345,6 @@ pub fn explain_calls(stream: &[u8], log: &[Call]) -> Result<Vec<usize>, usize> {
     }
     Ok(pos)
 }
-
-/// descriptor count a handler invocation must have received (None: no rule / variable)
 pub fn prescribed_files(call: &Call) -> Option<usize> {
     match call {
         Call::SetMemTable(r, _) => Some(r.len()),
